@@ -91,5 +91,21 @@ def run(out, tier, seed):
                 ok = not (name == "opt:line-boundaries" and fmt in ("xml", "pretty-xml"))
                 ev = {"op": "roundtrip", "fmt": fmt, "shape": name + ":" + ",".join(sorted(kw)), "before": triples, "expressible": ok, "ser_kw": kw, "prefixes": [["ex", shapes.EX]]}
                 jobs.append({"cfg": {}, "events": [ev]})
+    # base=: IRIs that merely start with the base string, that continue it with '#', '/', '?', ':' or nothing at all
+    B = "http://ex.example/a"
+    around = [B, B + "b", B + ":b", B + "#f", B + "/x", B + "?q=1", B + "/", "http://ex.example/", "http://ex.example/b", B + "//x", B + "/../y"]
+    base_graph = [[I_(u), P1_, I_(around[(i + 1) % len(around)])] for i, u in enumerate(around)] + [[I_(u), P2_, L_(str(i))] for i, u in enumerate(around)]
+    # falsy native values next to others, literals whose lexical form is not the canonical one of their shorthand
+    falsy_graph = [[S1_, P1_, L_("0", dt=shapes.XSD + "integer")], [S1_, P1_, L_("5", dt=shapes.XSD + "integer")], [S1_, P1_, L_("false", dt=shapes.XSD + "boolean")],
+                   [S1_, P1_, L_("0.0", dt=shapes.XSD + "double")], [S1_, P2_, L_("0", dt=shapes.XSD + "integer")], [shapes.S2, P1_, L_("false", dt=shapes.XSD + "boolean")],
+                   [shapes.S2, P1_, L_("true", dt=shapes.XSD + "boolean")], [shapes.S2, P2_, L_("")], [shapes.S2, P2_, L_("x")]]
+    type_graph = [[S1_, TYPE_, L_("x")], [shapes.S2, TYPE_, shapes.Bn("t")], [shapes.Bn("t"), P1_, L_("v")], [I_(shapes.EX + "s3"), TYPE_, I_(shapes.RDF + "Description")],
+                  [I_(shapes.EX + "s4"), TYPE_, I_("urn:x:")], [I_(shapes.EX + "s5"), TYPE_, I_(shapes.EX + "C")], [I_(shapes.EX + "s5"), TYPE_, I_(shapes.EX + "D")]]
+    for fmt in FORMATS:
+        for b in (B, B + "/", "http://ex.example/", B + "#", "http://ex.example/ab"):
+            jobs.append({"cfg": {}, "events": [{"op": "roundtrip", "fmt": fmt, "shape": "opt:base:" + b, "before": base_graph, "expressible": True, "base": b, "prefixes": [["ex", shapes.EX]]}]})
+        for kw in [{}] + kw_sets.get(fmt, []):
+            jobs.append({"cfg": {}, "events": [{"op": "roundtrip", "fmt": fmt, "shape": "opt:falsy:" + ",".join(sorted(kw)), "before": falsy_graph, "expressible": True, "ser_kw": kw, "prefixes": [["ex", shapes.EX]]}]})
+            jobs.append({"cfg": {}, "events": [{"op": "roundtrip", "fmt": fmt, "shape": "opt:rdf-type-objects:" + ",".join(sorted(kw)), "before": type_graph, "expressible": True, "ser_kw": kw, "prefixes": [["ex", shapes.EX]]}]})
     out.exhaustive = not quick
     out.conform(__name__, TRACE, jobs, nontrivial=nontrivial, chunk=400, par=16, heap="2g")
